@@ -338,7 +338,7 @@ pub fn sets(ctx: &Ctx) -> Vec<CaseSet> {
     let (tb1, cfg1) = (tb.clone(), cfg.clone());
     out.push(CaseSet::new(
         "locations",
-        ctx.size(25_000, 1_200_000),
+        ctx.size(75_000, 4_800_000),
         Box::new(move |rep, rng, _| {
             let (input, q, tag) = crate::props::c06::gen_input(rng, &tb1, &cfg1, 400);
             // make many inputs multi-line
@@ -379,7 +379,7 @@ pub fn sets(ctx: &Ctx) -> Vec<CaseSet> {
     let (tb2, cfg2) = (tb.clone(), cfg.clone());
     out.push(CaseSet::new(
         "truncation-generated",
-        ctx.size(2_500, 250_000),
+        ctx.size(7_500, 1_000_000),
         Box::new(move |rep, rng, _| {
             let v = gen::gen_value(rng, &cfg2, &tb2, 1);
             match rng.below(4) {
